@@ -189,7 +189,7 @@ func checkTriggerTemplate(r *Reporter, p *Prog, pkg string, fd *ast.FuncDecl) {
 		r.Fail("sibling/trigger-template", key, p.posStr(fd.Pos()), "unexpected body shape")
 		return
 	}
-	if is, ok := fd.Body.List[0].(*ast.IfStmt); !ok || exprKey(is.Cond) != "e.currentTriggerExceedsMaxTriggerCount()" || len(is.Body.List) != 1 {
+	if is, ok := fd.Body.List[0].(*ast.IfStmt); !ok || rawKey(is.Cond) != "e.currentTriggerExceedsMaxTriggerCount()" || len(is.Body.List) != 1 {
 		bad = append(bad, "the event-level max-trigger-count check must come first and return")
 	} else if _, isRet := is.Body.List[0].(*ast.ReturnStmt); !isRet {
 		bad = append(bad, "the event-level max-trigger-count check must return")
@@ -217,7 +217,7 @@ func checkTriggerTemplate(r *Reporter, p *Prog, pkg string, fd *ast.FuncDecl) {
 		return true
 	})
 	// per-hook count check: true edge -> Unhook, and never reaches the trigger
-	exceeded, within := lf.CondEdges(func(e ast.Expr) bool { return exprKey(e) == "hook.currentTriggerExceedsMaxTriggerCount()" })
+	exceeded, within := lf.RawCondEdges(func(e ast.Expr) bool { return rawKey(e) == "hook.currentTriggerExceedsMaxTriggerCount()" })
 	isTrig := func(n ast.Node) bool {
 		cl, ok := n.(*ast.CallExpr)
 		return ok && (exprKey(cl.Fun) == "hook.trigger" || exprKey(cl.Fun) == "workerPool.Submit")
